@@ -162,8 +162,21 @@ def _share_scope(res):
         x = k(x) + 1
       return x
 
-  def wrapper(style, holder, own_name, kid_names):
+  class BlockF(nn.Module):
+    """children arrive as dataclass fields and are named after the field"""
+    order: tuple = ()
+    p: nn.Module = None
+    q: nn.Module = None
+
+    def __call__(self, x):
+      for n in self.order:
+        x = getattr(self, n)(x) + 1
+      return x
+
+  def wrapper(style, holder, own_name, kid_names, form='tuple'):
     def mk_block():
+      if form == 'field':
+        return BlockF(order=tuple(kid_names), **{n: Kid() for n in kid_names})
       return Block(kids=tuple(Kid(name=n) for n in kid_names))
 
     def own(self, x):
@@ -197,14 +210,20 @@ def _share_scope(res):
     for holder in ('module', 'param', 'variable'):
       if style == 'setup' and holder != 'module':
         continue      # params / variables cannot be declared in setup before the block
-      for own_name in ('p', 'q', 'z'):
-        for kid_names in (('p',), ('p', 'q'), ('q', 'p')):
+      for own_name, kid_names, form in itertools.product(
+          ('p', 'q', 'z'), (('p',), ('p', 'q'), ('q', 'p')), ('tuple', 'field')):
+        if form == 'field' and style == 'compact':
+          # a module constructed inside the wrapper's compact method is the wrapper's own
+          # auto-named child whatever field of the block it is handed to: nothing to re-attach
+          continue
+        if True:
           clash = own_name in kid_names
-          key = f'{style}|{holder}|{own_name}|{",".join(kid_names)}'
-          case = dict(style=style, holder=holder, own_name=own_name, kid_names=list(kid_names))
+          key = f'{style}|{holder}|{own_name}|{",".join(kid_names)}|{form}'
+          case = dict(style=style, holder=holder, own_name=own_name, kid_names=list(kid_names),
+                      form=form)
           res['evals'] += 1
           try:
-            y, vs = wrapper(style, holder, own_name, kid_names).init_with_output(rngs, x)
+            y, vs = wrapper(style, holder, own_name, kid_names, form).init_with_output(rngs, x)
             err = None
           except Exception as e:  # noqa
             err = e
@@ -229,7 +248,7 @@ def _share_scope(res):
                              'children re-attached by share_scope do not sit next to the '
                              'wrapper\'s own entries', case, observed=sorted(vs['params']),
                              expected=want)
-            y2 = wrapper(style, holder, own_name, kid_names).apply(vs, x)
+            y2 = wrapper(style, holder, own_name, kid_names, form).apply(vs, x)
             if canon_tree(np.asarray(y2)) != canon_tree(np.asarray(y)):
               core.violation(res, f'share-scope-apply|{key}', 'apply(init vars) != init output', case)
             core.outcome(res, 'share-scope:ok')
